@@ -58,7 +58,9 @@ pub(super) fn get_highest_index(file_spec: &FileSpec) -> Option<u32> {
             &name[1..]
         };
 
-        let idx: u32 = infix.parse().unwrap_or(0);
+        // the stem of a compressed file still contains the suffix, e.g. "00003.log"
+        let digits = infix.split('.').next().unwrap_or(infix);
+        let idx: u32 = digits.parse().unwrap_or(0);
         o_highest_idx = match o_highest_idx {
             None => Some(idx),
             Some(prev) => Some(max(prev, idx)),
